@@ -168,6 +168,22 @@ func ipv4(c *vf.Ctx) {
 			a.check("C20/ipv4/CIDRMask/equals-standard-network-prefix-text", cms == m.String(), func() string {
 				return fmt.Sprintf("NewIPv4(%s).CIDRMask() = %q, want %q", v4fields(x), cms, m.String())
 			})
+			// the accessors read the address: after every one of them has been called, the object prints, counts and
+			// compares as the address it was built from (a second call sees what the first one left behind)
+			{
+				var s2, cidr2 string
+				var u2 uint32
+				var self bool
+				p, msg, where := vf.Try(func() {
+					x.IsInSubnet(x)
+					x.IsInRange(x, x)
+					s2, cidr2, u2 = x.String(), x.CIDRAddress(), x.ToUInt32()
+					self = x.IsInRange(ip.NewIPv4(byte(u>>24), byte(u>>16), byte(u>>8), byte(u), uint8(bits)), ip.NewIPv4(byte(u>>24), byte(u>>16), byte(u>>8), byte(u), uint8(bits)))
+				})
+				a.check("C20/ipv4/history/address-unchanged-after-its-accessors-were-called", !p && cidr2 == pfx.String() && u2 == u && self && x.MaskBits == uint8(bits), func() string {
+					return fmt.Sprintf("NewIPv4(%s/%d): after String, CIDRAddress, ToUInt32, ComputeMask, CIDRMask, IsInSubnet, IsInRange the object reads String()=%q CIDRAddress()=%q ToUInt32()=%#x MaskBits=%d in-range-of-itself=%v (panic=%v %s %s)", v4addr(u), bits, s2, cidr2, u2, x.MaskBits, self, p, msg, where)
+				})
+			}
 		}
 		// prefix lengths above 32 are not IPv4 prefixes
 		for _, bits := range []int{33, 34, 40, 64, 128, 255} {
